@@ -38,6 +38,18 @@ impl J {
     pub fn obj(kv: Vec<(&str, J)>) -> J {
         J::O(kv.into_iter().map(|(k, v)| (k.to_string(), v)).collect())
     }
+    pub fn get(&self, key: &str) -> Option<&J> {
+        match self {
+            J::O(kv) => kv.iter().find(|(k, _)| k == key).map(|(_, v)| v),
+            _ => None,
+        }
+    }
+    pub fn as_str(&self) -> Option<&str> {
+        match self {
+            J::S(s) => Some(s),
+            _ => None,
+        }
+    }
     pub fn write(&self, out: &mut String) {
         match self {
             J::Null => out.push_str("null"),
